@@ -56,7 +56,7 @@ class Obligation:
 
 
 class Engine:
-    def __init__(self, repo, contracts, schema, axioms=None, feas_timeout=1500):
+    def __init__(self, repo, contracts, schema, axioms=None, feas_timeout=400):
         self.repo = repo
         self.contracts = contracts          # qualname -> Contract
         self.schema = schema                # class -> {attr: kind}
@@ -331,6 +331,14 @@ class Engine:
         if st.spec:
             return True
         self.stats["feas_checks"] += 1
+        import time as _t
+        _t0 = _t.time()
+        try:
+            return self._feasible(st, cond)
+        finally:
+            self.stats["feas_s"] = round(self.stats.get("feas_s", 0.0) + _t.time() - _t0, 2)
+
+    def _feasible(self, st, cond):
         s = z3.Solver()
         s.set("timeout", self.feas_timeout)
         for a in self.global_axioms:
